@@ -8,6 +8,7 @@ division into lines is T split at "\\n" only.   S-CLI slice: verdicts of M, iden
 `equals` between all pairs of source kinds.
 """
 import io
+import os
 import itertools
 
 from mc import world, procseam, cli, lib, stubprog
@@ -24,7 +25,7 @@ RULE = ('source kind {constant string, here-document, file, program output} x mo
         '<= 2 (thorough 3) access events from {freeze, as_str, as_lines fully, as_lines first line only, as_lines in two steps, as_file, write_to} x '
         'mem_buff_size in {1, 2, |T|, |T|+1, 8192} x texts of length <= 2 (thorough 3) over {a, newline, CR, FF, NEL, LS} plus CR LF texts, texts around '
         'the buffer size and without final newline; chains include replacements that insert / remove line breaks followed by line-oriented stages; '
-        'concatenated sources: every cut of a text (length <= 2, thorough 3, over {a, newline}, plus CR LF / FF samples) into 2..4 parts x 13 patterns of part kinds '
+        'CLI: `equals` between texts that DIFFER (12 lengths x 5 ways of differing, files with identical size and times) for every pair of source kinds; concatenated sources: every cut of a text (length <= 2, thorough 3, over {a, newline}, plus CR LF / FF samples) into 2..4 parts x 13 patterns of part kinds '
         '{constant, file, program output} x frozen first {no, yes} x event sequences x buffer {1, |T|+1}; states = (representation class, frozen, may-depend) after each event')
 ASSUMPTIONS = [
     'reference text: the input transformed by the C05 reference evaluator; lines are the maximal pieces ending in "\\n"',
@@ -102,6 +103,10 @@ def cases(tier):
                     yield ('src', kind, fm, ci, i, min(i + 12, nt))
     for i in range(0, nt, 6):
         yield ('cli', i, min(i + 6, nt))
+    # unequal texts that are easy to take for equal: same length / same file times / one a prefix of the other, lengths around the
+    # read-ahead of `equals` (100) and the memory buffer
+    for n in NEQ_SIZES:
+        yield ('cli-neq', n)
     # concatenations (type_val_prims/string_source/impls/concat.py): every split of a text into 2..4 parts of every pattern of part kinds
     ct = cat_texts(tier)
     for pat in CAT_PATTERNS:
@@ -291,6 +296,8 @@ def run(case) -> Result:
             _cli(res, t, case)
     elif k == 'cli-one':
         _cli(res, case[1], case)
+    elif k == 'cli-neq':
+        _cli_neq(res, case)
     return res
 
 
@@ -368,6 +375,57 @@ def _explore(res, kind, fm, ci, text, seqs, only_buf, bufs=None):
         res.nontrivial += 1
     if not res.samples and chain and len(text) > 1:
         res.samples.append({'kind': kind, 'model_frozen_first': fm, 'chain': csrc, 'text': text, 'events': list(seqs[-1]), 'reference_text': T})
+
+
+NEQ_SIZES = (2, 50, 99, 100, 101, 102, 162, 200, 1000, 8191, 8192, 8193)
+
+
+def _cli_neq(res, case):
+    """`equals` must be false for every pair of DIFFERENT texts whatever the kinds of source: the longer text = the shorter plus a line / plus one
+    character; same length with one character changed (files get identical size AND identical modification time)."""
+    _, n = case
+    w = world.get()
+    seam = procseam.SEAM
+    T = (('abcdefghi\n' * (n // 10 + 1))[:n - 1]) + '\n'
+    variants = {'plus-line': T + 'more\n', 'plus-char': T + 'z', 'changed-last': T[:-2] + 'X\n' if n > 2 else 'X\n', 'changed-first': 'X' + T[1:],
+                'minus-last-newline': T[:-1]}
+    for buf in (None, 64):
+        mp = stubprog.main_program(buf)
+        for vname, V in variants.items():
+            if V == T:
+                continue
+            w.reset()
+            seam.reset()
+            seam.script['cat'] = {'stdin_to_out': True}
+            asserts = []
+            for (A, B, an, bn) in ((T, V, 't', 'v'), (V, T, 'v', 't')):
+                # actual A from: file in act / action output ; expected B from: file in home, file in act, program output, here-document (if expressible)
+                seam.script['atc'] = {'out': T}  # the action's stdout is T; stdout assertions therefore use A == T only
+                seam.script['prog-' + bn] = {'out': B}
+                exp = ['-contents-of -rel-home %s.txt' % bn, '-contents-of -rel-act %s.txt' % bn, '-stdout-from %% prog-%s' % bn,
+                       '-contents-of -rel-act %s.txt -transformed-by identity' % bn]
+                if B.endswith('\n'):
+                    exp.append('<<EOF\n' + B + 'EOF')
+                for e in exp:
+                    for form in ('! equals %s', '-transformed-by identity ! equals %s', '-transformed-by ( run %% cat ) ! equals %s'):
+                        asserts.append('contents %s.txt : %s' % (an, form % e))
+                        if A is T:
+                            asserts.append('stdout %s' % (form % e))
+                    if not e.startswith('<<'):
+                        asserts.append('contents %s.txt : ( ! equals %s\n && ! equals %s\n )' % (an, e, e))
+            for name, txt in (('t.txt', T), ('v.txt', V)):
+                p = w.write(name, txt)
+                os.utime(p, (1000000000, 1000000000))
+            text = '\n'.join(['[conf]', 'act-home = .', '[setup]', 'copy t.txt', 'copy v.txt', '[act]', '% atc', '[assert]'] + asserts) + '\n'
+            o = cli.run_case(text, mp=mp)
+            res.n += len(asserts)
+            res.nontrivial += 1
+            res.outcomes[('cli-neq', o.ident)] += 1
+            if o.rc != 0 or o.out != 'PASS\n' or o.exc:
+                errl = cli.stderr_lines(o.err)
+                res.violation(case, ['texts of length %d that differ (%s), mem_buff_size %s: every `! equals` must pass whatever the kinds of source; got rc=%s %s' % (
+                    n, vname, buf, o.rc, o.out.strip()), ' / '.join(errl[:7])[:600]], {'file': text[:1500]})
+    return res
 
 
 def _cli(res, t, case):
